@@ -7,6 +7,7 @@ and the decoded structure is judged by TLC against WellFormed together with the 
 from .. import core, build, writerside as W
 
 JUDGE = ["C09"]
+LEVEL = "translation_validation"
 
 
 def run(ctx):
